@@ -202,6 +202,154 @@ def run [OfNat τ 0] (tr : Nat → List (Trans τ)) : List τ → List (Obs τ)
     let s0 := enter now 0
     ⟨now, none, none, true, s0⟩ :: runFrom tr s0 rest
 
+/-! ## conditional auxiliaries (`aux helper if <needs>`, `acting.Suspender`)
+
+A frame's preacts are, in order, transitions and suspenders.  While the helper runs, the main framer's
+active outline is truncated to the head of the suspending frame (`Framer.change`), the helper is
+iterated by the suspender each tick, and when it is done the full outline comes back
+(`Framer.reactivate`).  None of this touches the main framer's clocks: only `Framer.enter` with
+non-empty `enters` restarts them.  One helper framer, one suspender per program. -/
+
+inductive Pre (τ : Type) where
+  | trans (t : Trans τ)
+  | susp (needs : List (Need τ))
+deriving Repr
+
+structure SFrame (τ : Type) where
+  over : Option Nat
+  pres : List (Pre τ)
+deriving Repr
+
+/-- the helper framer: its frames and the frames whose entry runs `done me` -/
+structure Helper (τ : Type) where
+  frames : List (RFrame τ)
+  doneAt : List Nat
+deriving Repr
+
+/-- what the suspender machinery remembers between ticks: the helper's clock state while it runs
+(`none` = `aux.done`), and the frame at whose head the outline is truncated -/
+structure Aux (τ : Type) where
+  h : Option (St τ) := none
+  suspAt : Option Nat := none
+deriving Repr
+
+def SFrame.toR (f : SFrame τ) : RFrame τ := ⟨f.over, []⟩
+
+/-- `Framer.ExEn(nears, far)`: the frames to enter — from the first position where the active outline
+holds `far` itself or differs from `far`'s outline -/
+def entersOf : List Nat → List Nat → Nat → List Nat
+  | n :: ns, f :: fs, far => if n = far ∨ n ≠ f then f :: fs else entersOf ns fs far
+  | _, _, _ => []
+
+/-- `framer.actives` as it is right now: the head of the suspending frame while the helper runs, else
+the outline of the active frame -/
+def activesNow (fr : List (SFrame τ)) (x : Aux τ) (active : Nat) : List Nat :=
+  let r := fr.map SFrame.toR
+  match x.suspAt with
+  | some m => headOf r r.length m
+  | none => outline r active
+
+/-- one preact of frame `m`.  Result: `some d` = processing of this tick stops with decision `d`
+(`some far` a transition is taken, `none` the framer stays); `none` = go on with the next preact. -/
+def stepPre [OfNat τ 0] (fr : List (SFrame τ)) (hp : Helper τ) (now : τ) (s1 : St τ)
+    (m : Nat) (x : Aux τ) : Pre τ → Option (Option Nat) × Aux τ
+  | .trans t =>
+    -- `Transiter.action`: needs, then `framer.checkEnter(enters)` with `ExEn(framer.actives, far)` (no
+    -- transition on empty enters; `framer.actives` is the restored outline if the helper finished
+    -- earlier in this tick); a taken transition exits the suspending frame, whose exit act
+    -- force-deactivates the helper
+    if t.needs.all (evalNeed s1) &&
+        !(entersOf (activesNow fr x s1.active) (outline (fr.map SFrame.toR) t.far) t.far).isEmpty then
+      (some (some t.far), {})
+    else (none, x)
+  | .susp needs =>
+    match x.h with
+    | none =>                                   -- `if aux.done:` not active
+      if needs.all (evalNeed s1) then
+        -- `aux.enterAll(); aux.recur(); if aux.done: deactivate, return None`
+        if hp.doneAt.contains 0 then (none, x)
+        else (some none, { h := some (enter now 0), suspAt := some m })     -- `framer.change(main.head)`
+      else (none, x)
+    | some h =>                                 -- `if not aux.done:` `aux.segue(); aux.recur()`
+      let o := segue (transOf hp.frames) now h
+      if o.entered && hp.doneAt.contains o.after.active then
+        (none, { h := none, suspAt := none })   -- done: deactivate, `framer.reactivate()`, go on
+      else (some none, { x with h := some o.after })
+
+def scanPres [OfNat τ 0] (fr : List (SFrame τ)) (hp : Helper τ) (now : τ) (s1 : St τ)
+    (m : Nat) : List (Pre τ) → Aux τ → Option (Option Nat) × Aux τ
+  | [], x => (none, x)
+  | p :: ps, x =>
+    match stepPre fr hp now s1 m x p with
+    | (some d, x') => (some d, x')
+    | (none, x') => scanPres fr hp now s1 m ps x'
+
+/-- `for frame in self.actives: if frame.precur(): return` over the list the loop started with -/
+def scanFrames [OfNat τ 0] (fr : List (SFrame τ)) (hp : Helper τ) (now : τ) (s1 : St τ) :
+    List Nat → Aux τ → Option (Option Nat) × Aux τ
+  | [], x => (none, x)
+  | m :: ms, x =>
+    match scanPres fr hp now s1 m (((fr[m]?).map (·.pres)).getD []) x with
+    | (some d, x') => (some d, x')
+    | (none, x') => scanFrames fr hp now s1 ms x'
+
+/-- the decision of one tick of the main framer -/
+def decideS [OfNat τ 0] (fr : List (SFrame τ)) (hp : Helper τ) (now : τ) (x : Aux τ) (s1 : St τ) :
+    Option Nat × Aux τ :=
+  let res := scanFrames fr hp now s1 (activesNow fr x s1.active) x
+  (res.1.getD none, res.2)
+
+/-- a frame line as written: a transition verb or `aux helper if <needs>` -/
+inductive VerbS (τ : Type) where
+  | plain (v : Verb τ)
+  | susp (needs : List (Need τ))
+deriving Repr
+
+structure FrameSrcS (τ : Type) where
+  over : Option Nat
+  verbs : List (VerbS τ)
+deriving Repr
+
+def resolveVerbS [Lit τ] (n home : Nat) : VerbS τ → Except ResolveErr (Pre τ)
+  | .plain v => do
+    let t ← resolveVerb n home v
+    return .trans t
+  | .susp needs => .ok (.susp needs)
+
+def resolveFramesS [Lit τ] (n : Nat) : Nat → List (FrameSrcS τ) → Except ResolveErr (List (SFrame τ))
+  | _, [] => .ok []
+  | i, f :: fs => do
+    let ps ← f.verbs.mapM (resolveVerbS n i)
+    let rest ← resolveFramesS n (i + 1) fs
+    return ⟨f.over, ps⟩ :: rest
+
+def resolveS [Lit τ] (p : List (FrameSrcS τ)) : Except ResolveErr (List (SFrame τ)) :=
+  resolveFramesS p.length 0 p
+
+/-! ### the machine over an arbitrary decision function
+`d now x s1`: given the extra state `x` and the clock state `s1` the needs see, either a far frame
+(a transition is taken) or nothing, and the new extra state. -/
+
+def segueG {σ : Type} [OfNat τ 0] (d : τ → σ → St τ → Option Nat × σ) (now : τ) (s : St τ) (x : σ) : Obs τ × σ :=
+  let s1 : St τ := { s with elapsed := now - s.stamp, recurred := s.recurred + 1 }
+  match d now x s1 with
+  | (some far, x') => (⟨now, some s1.elapsed, some s1.recurred, true, enter now far⟩, x')
+  | (none, x') => (⟨now, some s1.elapsed, some s1.recurred, false, s1⟩, x')
+
+def runFromG {σ : Type} [OfNat τ 0] (d : τ → σ → St τ → Option Nat × σ) (s : St τ) (x : σ) : List τ → List (Obs τ)
+  | [] => []
+  | now :: rest => let r := segueG d now s x; r.1 :: runFromG d r.1.after r.2 rest
+
+def runG {σ : Type} [OfNat τ 0] (d : τ → σ → St τ → Option Nat × σ) (x0 : σ) : List τ → List (Obs τ)
+  | [] => []
+  | now :: rest =>
+    let s0 := enter now 0
+    ⟨now, none, none, true, s0⟩ :: runFromG d s0 x0 rest
+
+/-- the machine of the first part is the instance without extra state -/
+def decideT (tr : Nat → List (Trans τ)) (_ : τ) (_ : Unit) (s1 : St τ) : Option Nat × Unit :=
+  ((firstTrans s1 (tr s1.active)).map (·.far), ())
+
 /-- `Skedder.run`: the store stamp of tick `n` is `0 + P + … + P` (n additions, in this order) -/
 def stampAt [OfNat τ 0] (P : τ) : Nat → τ
   | 0 => 0
